@@ -1380,7 +1380,19 @@ fn exec_mode(src: &str, with_frame: bool, with_plan: bool, allow_process: bool, 
             Err(_) => format!("out={out} end=panic@{}", LAST_PANIC.lock().unwrap()),
             Ok(()) => match rt.errors.diagnostics.first() {
                 None => format!("out={out} end=ok"),
-                Some(d) => format!("out={out} end=rt:{}@{}:{}", kind_name(d.message), d.span.start, d.span.end),
+                Some(d) => {
+                    // REPORTING the runtime error is part of "ends with a reported runtime error": render it the way
+                    // the CLI does (and the warnings of the static passes); a panic in there is a crash of the
+                    // interpreter like any other (seed C06-e1)
+                    let line = format!("out={out} end=rt:{}@{}:{}", kind_name(d.message), d.span.start, d.span.end);
+                    match util::catch(|| {
+                        let _ = resolver.errors.render_ansi(src, "run.ns");
+                        let _ = rt.errors.render_ansi(src, "run.ns");
+                    }) {
+                        Ok(()) => line,
+                        Err(_) => format!("out={out} end=panic@{}", LAST_PANIC.lock().unwrap()),
+                    }
+                }
             },
         }
     });
